@@ -230,3 +230,50 @@ _run_before_r6 = run
 def run(ctx):
     _run_before_r6(ctx)
     r6_optional_fields(ctx)
+
+
+def r7_value_decoders(ctx):
+    """hand-written field decoders keep the transmitted value"""
+    rid = "C19.R7"
+    ctx.rule(rid, "the hand-written (deserialize_with) decoders of the API types do not route an integer through a float (f32/f64 -> integer cast loses values above 2^24 / 2^53) and do not ask for a borrowed &str (fails for any string with a JSON escape) except the two reviewed decoders of escape-free texts (move list, challenge rules)", floor=2)
+    from ..expr import operand_ty
+    prog = ctx.prog
+    float_casts, borrowed, helpers = [], [], 0
+    for k, f in sorted(prog.fns.items()):
+        if not k.startswith(API) or f.get("test") or "Deserialize>::deserialize" in k or "Visitor" in k or "Serialize>::serialize" in k:
+            continue
+        helpers += 1
+        for b in f["blocks"]:
+            if b["cleanup"]:
+                continue
+            for s in b["stmts"]:
+                rv = s["rv"]
+                if rv["op"] == "cast" and (operand_ty(f, rv["a"][0]) or "") in ("f32", "f64") and rv["cast_ty"] in ("u8", "u16", "u32", "u64", "usize", "i8", "i16", "i32", "i64", "isize"):
+                    float_casts.append((k, s["line"], operand_ty(f, rv["a"][0]), rv["cast_ty"], f))
+            t = b["term"]
+            if t["k"] == "call":
+                key = t["callee"].get("key") or ""
+                if "<&str as Deserialize>::deserialize" in key or "<&'a str as Deserialize" in key or ("impls::<&" in key and "str as Deserialize" in key):
+                    borrowed.append((k, t["line"], f))
+    ctx.ob(rid, "matcher-control", helpers >= 1 and any(k.endswith("::from_space_sv") for k, _, _ in borrowed),
+           "" if (helpers >= 1 and any(k.endswith("::from_space_sv") for k, _, _ in borrowed)) else "the reviewed borrowed-str decoder from_space_sv was not recognised (helpers scanned: %d)" % helpers, "",
+           sample={"functions_scanned": helpers})
+    for k, line, ft, it, f in float_casts:
+        ctx.ob(rid, "float-to-int|%s" % k.rsplit("::", 1)[-1], False,
+               "%s decodes a number as %s and casts it to %s: integers that %s cannot represent exactly (above 2^%d; the unlimited-clock sentinel 2147483647, long correspondence clocks) decode to a different value without an error" % (f["display"], ft, it, ft, 24 if ft == "f32" else 53),
+               "%s:%d" % (f["file"], line))
+    ctx.ob(rid, "no-float-detour", not float_casts, "" if not float_casts else "%d float-to-integer cast(s) in field decoders" % len(float_casts), "")
+    REVIEWED_BORROWED = {"from_space_sv": "the move list consists of UCI move texts: no character that JSON escapes",
+                         "from_csv": "the challenge rules are identifiers (noAbort, noRematch, ...): no character that JSON escapes"}
+    new_borrowed = [(k, line, f) for k, line, f in borrowed if k.rsplit("::", 1)[-1] not in REVIEWED_BORROWED]
+    ctx.ob(rid, "no-borrowed-str-decoder", not new_borrowed,
+           "" if not new_borrowed else "%s asks serde for a borrowed &str: a string containing any JSON escape (quote, backslash, newline, unicode escape) cannot be borrowed from the input and the whole message fails to decode" % sorted({f["display"] for k, line, f in new_borrowed}),
+           "%s:%d" % (new_borrowed[0][2]["file"], new_borrowed[0][1]) if new_borrowed else "")
+
+
+_run_before_r7 = run
+
+
+def run(ctx):
+    _run_before_r7(ctx)
+    r7_value_decoders(ctx)
